@@ -374,6 +374,100 @@ theorem failing_pre_action_stops_nothing (c : Chain) (s : Store) (body : List St
   intro hset hempty l
   exact (restore_all c s body hset hempty).1 l
 
+/-! ## changes of the chain while the registry runs -/
+
+theorem names_runAllPre_subset (c : Chain) (n : String) (h : n ∈ runAllPre c) : n ∈ c.map (·.name) := by
+  rw [runAllPre_eq] at h
+  obtain ⟨q, hq, rfl⟩ := List.mem_map.mp h
+  exact List.mem_map.mpr ⟨q, (List.mem_filter.mp hq).1, rfl⟩
+
+/-- a scripted test that changes nothing is an ordinary test and leaves the chain as it was -/
+theorem scripted_without_changes (c : Chain) (s : Store) (body : List Stmt) (actor : Nat) :
+    runScripted c s ⟨body, .none, actor, .none⟩ = (runTest c s body, c) := by
+  have h : effectiveBodyMut s ⟨body, .none, actor, .none⟩ = .none := by
+    unfold effectiveBodyMut; split <;> rfl
+  simp [runScripted, h, postChainAfterBody, applyMut, runTest]
+
+/-- **Changes of the chain take effect from the next test.**  `runAllTests` hands every test the
+    chain as it is when that test starts: the pre actions of test k are those of the chain at its
+    start — whatever the test or a post action then installs or removes — and the pre actions of
+    test k+1 are those of the chain test k left behind. -/
+theorem chain_changes_take_effect_from_next_test (c : Chain) (s : Store) (t t₂ : ScriptedTest) :
+    ((runAllTestsReg c s [t, t₂]).1.map (·.pre)) = [runAllPre c, runAllPre (runScripted c s t).2] ∧
+    (runAllTestsReg c s [t]).2.1 = (runScripted c s t).2 := by
+  simp [runAllTestsReg, runScripted]
+
+/-- a plugin installed from the body of test k sees neither action of test k, and both actions of
+    test k+1: first of all in the pre order, last of all in the post order -/
+theorem installed_during_test_seen_from_next (c : Chain) (s s' : Store) (body b₂ : List Stmt) (p : Plugin)
+    (a a₂ : Nat) (hov : (runBody s 0 body).overflow = false) (hen : p.enabled = true)
+    (hfresh : p.name ∉ c.map (·.name)) (hid : c.any (fun q => q.id == p.id) = false) :
+    p.name ∉ (runScripted c s ⟨body, .install p, a, .none⟩).1.pre ∧
+    p.name ∉ (runScripted c s ⟨body, .install p, a, .none⟩).1.post ∧
+    (runScripted c s ⟨body, .install p, a, .none⟩).2 = p :: c ∧
+    (runScripted (p :: c) s' ⟨b₂, .none, a₂, .none⟩).1.pre = p.name :: runAllPre c ∧
+    (runScripted (p :: c) s' ⟨b₂, .none, a₂, .none⟩).1.post = runAllPost c ++ [p.name] := by
+  have h : effectiveBodyMut s ⟨body, .install p, a, .none⟩ = .install p := by
+    simp [effectiveBodyMut, hov]
+  have h2 : effectiveBodyMut s' ⟨b₂, .none, a₂, .none⟩ = .none := by
+    unfold effectiveBodyMut; split <;> rfl
+  refine ⟨?_, ?_, ?_, ?_, ?_⟩
+  · simp only [runScripted]
+    exact fun hm => hfresh (names_runAllPre_subset c _ hm)
+  · simp only [runScripted, h, postChainAfterBody]
+    rw [runAllPost_eq]
+    intro hm
+    exact hfresh (names_runAllPre_subset c _ (by simpa using hm))
+  · simp [runScripted, h, postChainAfterBody, applyMut, install, actorActs, hid]
+  · simp [runScripted, runAllPre, hen]
+  · simp [runScripted, h2, postChainAfterBody, runAllPost, hen]
+
+/-- a plugin removed by name from the body of test k (pairwise different names) sees nothing from
+    test k+1 on; as for test k's own post action: the head of the chain still sees it (the walk
+    starts at the head captured when the test started), any other plugin does not (its predecessor
+    already skips it) -/
+theorem removed_during_test_gone_from_next (c : Chain) (s s' : Store) (body b₂ : List Stmt) (name : String)
+    (a a₂ : Nat) (hov : (runBody s 0 body).overflow = false) (hu : UniqueNames c) :
+    (runScripted c s ⟨body, .remove name, a, .none⟩).2 = c.filter (fun q => q.name ≠ name) ∧
+    name ∉ (runScripted (runScripted c s ⟨body, .remove name, a, .none⟩).2 s' ⟨b₂, .none, a₂, .none⟩).1.pre ∧
+    name ∉ (runScripted (runScripted c s ⟨body, .remove name, a, .none⟩).2 s' ⟨b₂, .none, a₂, .none⟩).1.post ∧
+    (∀ h rest, c = h :: rest → h.name = name →
+      (runScripted c s ⟨body, .remove name, a, .none⟩).1.post = runAllPost c) ∧
+    (∀ h rest, c = h :: rest → h.name ≠ name →
+      (runScripted c s ⟨body, .remove name, a, .none⟩).1.post = runAllPost (c.filter (fun q => q.name ≠ name))) := by
+  have h : effectiveBodyMut s ⟨body, .remove name, a, .none⟩ = .remove name := by
+    simp [effectiveBodyMut, hov]
+  have h2 : effectiveBodyMut s' ⟨b₂, .none, a₂, .none⟩ = .none := by
+    unfold effectiveBodyMut; split <;> rfl
+  have hc : (runScripted c s ⟨body, .remove name, a, .none⟩).2 = c.filter (fun q => q.name ≠ name) := by
+    simp only [runScripted, h, applyMut]
+    rw [remove_by_name_removes_exactly c name hu]
+    split <;> rfl
+  have hnot : name ∉ (c.filter (fun q => q.name ≠ name)).map (·.name) := not_mem_names_filter name c
+  refine ⟨hc, ?_, ?_, ?_, ?_⟩
+  · rw [hc]; simp only [runScripted]
+    exact fun hm => hnot (names_runAllPre_subset _ _ hm)
+  · rw [hc]; simp only [runScripted, h2, postChainAfterBody]
+    rw [runAllPost_eq]
+    exact fun hm => hnot (names_runAllPre_subset _ _ (by simpa using hm))
+  · intro hd rest hcr hn
+    subst hcr
+    simp [runScripted, h, postChainAfterBody, hn]
+  · intro hd rest hcr hn
+    subst hcr
+    simp only [runScripted, h, postChainAfterBody, hn, if_false]
+    rw [remove_by_name_removes_exactly _ name hu]
+
+/-- a change made FROM a post action does not alter who sees that test's post action (every frame of
+    the post recursion exists before the first post action runs); it shows from the next test on -/
+theorem change_from_post_action (c : Chain) (s : Store) (body : List Stmt) (actor : Nat) (m : Mut)
+    (hact : actorActs c actor = true) :
+    (runScripted c s ⟨body, .none, actor, m⟩).1.post = runAllPost c ∧
+    (runScripted c s ⟨body, .none, actor, m⟩).2 = applyMut m c := by
+  have h : effectiveBodyMut s ⟨body, .none, actor, m⟩ = .none := by
+    unfold effectiveBodyMut; split <;> rfl
+  simp [runScripted, h, postChainAfterBody, applyMut, hact]
+
 /-! ## non-vacuity -/
 
 def exChain : Chain := installAll
